@@ -245,10 +245,16 @@ impl Router {
             Event::NewAlert(tx) => self.handle_new_alert(tx),
             Event::DeviceData => self.handle_device_payload(id),
             Event::Disconnect => self.handle_disconnection(id, None),
-            Event::Ready => self.scheduler.reschedule(id, ScheduleReason::Ready),
-            Event::Shadow(request) => {
-                retrieve_shadow(&mut self.datalog, &mut self.obufs[id], request)
-            }
+            // A link can send these after the router has already removed its connection
+            // (takeover by a new connection with the same client id, protocol error, ...)
+            Event::Ready => match self.obufs.get(id) {
+                Some(_) => self.scheduler.reschedule(id, ScheduleReason::Ready),
+                None => error!("no-connection id {} is already gone", id),
+            },
+            Event::Shadow(request) => match self.obufs.get_mut(id) {
+                Some(outgoing) => retrieve_shadow(&mut self.datalog, outgoing, request),
+                None => error!("no-connection id {} is already gone", id),
+            },
             Event::SendAlerts => {
                 self.send_alerts();
             }
